@@ -19,7 +19,7 @@
 //           {"op":"movein","name":n,"cid":c}           written outside the directory, rename(2)d in
 //           {"op":"rename","from":a,"to":b}            inside the directory
 //           {"op":"moveout","name":n}  {"op":"delete","name":n}  {"op":"trunc","name":n}
-//           {"op":"rmdir"}  (unlink everything, rmdir)  {"op":"mkdir"}
+//           {"op":"rmdir"}  (unlink everything, rmdir)  {"op":"mkdir"}  {"op":"mvdir"} (rename the directory away)
 //           {"op":"mksub","name":n} {"op":"rmsub","name":n}
 //           {"op":"bg","us":d,"do":{file op}}          seq mode: a helper thread performs the file op d us from now while
 //                                                      the main thread goes on with the script (joined before quiescence)
@@ -380,6 +380,11 @@ bool doFileOp(Ctx& c, const Json::Value& op) {
   if (k == "delete") return ::unlink(path("name").c_str()) == 0;
   if (k == "trunc") return ::truncate(path("name").c_str(), 0) == 0;
   if (k == "rmdir") return removeDirTree(c.dir);
+  if (k == "mvdir") {
+    // the whole directory is renamed away, files and all (IN_MOVE_SELF, no event per file); the path is free again
+    static std::atomic<int> n{0};
+    return ::rename(c.dir.c_str(), (c.dir + ".moved-" + std::to_string(n.fetch_add(1))).c_str()) == 0;
+  }
   if (k == "mkdir") return ::mkdir(c.dir.c_str(), 0755) == 0;
   if (k == "mksub") return ::mkdir(path("name").c_str(), 0755) == 0;
   if (k == "rmsub") return ::rmdir(path("name").c_str()) == 0;
